@@ -327,8 +327,7 @@ Section Sim.
   Qed.
 
   (* ------------------------------------------------------------------ the simulation relation *)
-  Record R (c : core) (g : gstate) : Prop := mkR {
-    R_pos : pos c = g_off g;
+  Record R0 (c : core) (g : gstate) : Prop := mkR0 {
     R_abs : abs_off c = 0;
     R_bin : bin_off c = None;
     R_log : log c = g_out g ++ [EBegin];
@@ -341,6 +340,8 @@ Section Sim.
     R_ln : LN c;
     R_lnum : g_lnum g = 1 + count_lt ltb (firstn (g_off g) s);
   }.
+  (* R0 does not mention the scan position: the fast path advances it at another moment *)
+  Definition R (c : core) (g : gstate) : Prop := pos c = g_off g /\ R0 c g.
 
   Definition Rfin (c : core) (g : gstate) : Prop :=
     pos c = g_off g /\ log c = g_out g ++ [EBegin] /\ bin_off c = None.
@@ -383,47 +384,51 @@ Section Sim.
     exfalso. apply Hne. eapply plen_zero_nil; eauto.
   Qed.
 
-  Notation slow := (slow_loop cfg M K true).
+  Lemma R0_set_pos c g q : R0 c g -> R0 (set_pos c q) g.
+  Proof. intros []. constructor; assumption. Qed.
 
-  Lemma slow_step fuel c g p l :
-    R c g -> g_stopped g = false -> g_off g = p -> next_line p l ->
-    let g' := g_step cfg (m_is_match M) g l in
-    exists c', Rfin c' g' /\ (terminated ltb l -> R c' g') /\
-      slow (S fuel) c s p = if g_stopped g' then OK false c' else slow fuel c' s (p + length l).
+  Lemma post_matched_set_pos c a b q :
+    post_matched cfg (set_pos c q) s a b = set_pos (post_matched cfg c s a b) q.
   Proof.
-    intros HR Hns Hoff Hnl g'.
-    destruct HR as [Rpos Rabs Rbin Rlog Rafter Rsunk Rmatched Rlaid Rllv Rllc Rln Rlnum].
+    unfold post_matched, with_event, brk, count_lines.
+    cbn [has_sunk last_line_visited set_pos].
+    destruct (negb (any_ctx cfg) || negb (has_sunk c) || negb (last_line_visited c <? a));
+      cbn [line_number last_line_counted set_pos set_log];
+      (destruct (line_number c); [destruct (Nat.leb a (last_line_counted c))|]); reflexivity.
+  Qed.
+
+  (* a matching line: before-context, then the match (shared by the slow and the fast path) *)
+  Lemma matched_step c g p l :
+    R0 c g -> g_off g = p -> g_stopped g = false -> next_line p l ->
+    let g' := g_step_s cfg g l true in
+    exists c2, before_context_by_line cfg K true (set_has_matched c) s p = OK true c2 /\
+      bin_off c2 = None /\
+      let c3 := post_matched cfg c2 s p (p + length l) in
+      pos c3 = pos c /\ log c3 = g_out g' ++ [EBegin] /\ bin_off c3 = None /\
+      (terminated ltb l -> R0 c3 g').
+  Proof.
+    intros HR Hoff Hns Hnl g'.
+    destruct HR as [Rabs Rbin Rlog Rafter Rsunk Rmatched Rlaid Rllv Rllc Rln Rlnum].
     destruct Hnl as (Hsub & Hb & Hshape).
-    assert (Hnl : next_line p l) by (repeat split; assumption).
-    cbn [slow_loop]. unfold ltb_. rewrite (line_step_next p l Hnl). rewrite Hsub.
-    unfold g', g_step, g_step_s. rewrite Hns.
-    set (matched := m_is_match M (without_terminator (c_lt cfg) l)).
-    set (success := negb (Bool.eqb matched (c_invert cfg))).
-    set (c0 := set_pos c (p + length l)).
+    unfold g', g_step_s. rewrite Hns.
     assert (Hlnum' : terminated ltb l -> S (g_lnum g) = 1 + count_lt ltb (firstn (g_off g + length l) s)).
     { intro Ht. rewrite Hoff. rewrite (count_lt_next p l Hsub Hb Ht). rewrite Rlnum, Hoff. lia. }
-    destruct success eqn:Es.
-    - (* the line is a match *)
-      set (c1 := set_has_matched c0).
+      set (c1 := set_has_matched c).
       destruct (before_context_spec c1 (g_pend g) p) as (c2 & Hrun & Hpost);
         [exact Rlaid|rewrite <- Hoff; exact Rllv|exact Rbin|exact Rabs|exact Rln|exact Rllc|].
       cbn zeta in Hpost.
-      rewrite Hrun. cbn [andthen].
       set (bl := firstn (c_before cfg) (g_pend g)) in *.
       assert (Hc2 : bin_off c2 = None /\ abs_off c2 = 0 /\ LN c2 /\ last_line_counted c2 <= p /\
-                    has_matched c2 = true /\ pos c2 = p + length l /\
+                    has_matched c2 = true /\ pos c2 = pos c /\
                     last_line_counted c2 <= last_line_visited c2).
       { destruct (rev bl) as [|f0 fr] eqn:Efl.
         - subst c2. cbn. repeat split; auto. cbn in Rllv. rewrite <- Hoff. lia.
         - destruct Hpost as (_ & P2 & _ & P4 & P5 & (Q1 & Q2 & Q3 & Q4 & Q5)).
           cbn in Q1, Q2, Q3, Q5. repeat split; try congruence; lia. }
       destruct Hc2 as (H2bin & H2abs & H2ln & H2llc & H2m & H2pos & H2llcv).
-      rewrite (sink_matched_K cfg Hbin) by exact H2bin. cbn [andthen].
-      rewrite andb_false_r. cbn [andb].
       destruct (post_matched_fields c2 p (p + length l) H2ln H2llc H2abs H2bin)
         as (F1 & F2 & F3 & F4 & F5 & F6 & F7 & F8 & F9 & F10).
-      exists (post_matched cfg c2 s p (p + length l)).
-      cbn [g_stopped]. 
+      exists c2. split; [exact Hrun|]. split; [exact H2bin|]. cbn zeta.
       (* the log *)
       assert (Hlog : log (post_matched cfg c2 s p (p + length l)) =
                 rev ((if any_context cfg && g_sunk g && Nat.ltb (length bl) (length (g_pend g))
@@ -440,7 +445,7 @@ Section Sim.
           assert (Hbl0 : bl = []) by (apply (f_equal (@rev _)) in Efl; now rewrite rev_involutive in Efl).
           rewrite Hbl0. cbn [length Nat.eqb negb andb app map rev].
           rewrite !andb_false_r. cbn [app rev].
-          cbn [has_sunk last_line_visited log c1 c0 set_has_matched set_pos].
+          cbn [has_sunk last_line_visited log c1 set_has_matched].
           rewrite Rsunk, Rlog. unfold any_context, any_ctx.
           replace (Nat.ltb (last_line_visited c) p) with (negb (Nat.eqb (length (g_pend g)) 0)).
           2:{ destruct (g_pend g) as [|x r] eqn:Ep.
@@ -457,7 +462,7 @@ Section Sim.
           rewrite Hlen0. cbn [negb]. rewrite !andb_false_r, !andb_true_r. cbn [app].
           rewrite P2, P3. destruct (Nat.ltb_spec p p); [lia|]. rewrite andb_false_r. cbn [app].
           rewrite P1, log_brk.
-          cbn [has_sunk last_line_visited log c1 c0 set_has_matched set_pos].
+          cbn [has_sunk last_line_visited log c1 set_has_matched].
           rewrite Rsunk, Rlog. unfold any_context, any_ctx.
           (* skipped lines <-> gap before the first before-context line *)
           assert (Hgap : Nat.ltb (last_line_visited c) (p - plen (f0 :: fr)) =
@@ -480,18 +485,57 @@ Section Sim.
           rewrite !rev_app_distr. cbn [rev app]. rewrite <- !app_assoc. cbn [app andb rev].
           destruct (((0 <? c_before cfg) || (0 <? c_after cfg)) && g_sunk g && (length bl <? length (g_pend g)));
             cbn [rev app]; rewrite <- ?app_assoc; try reflexivity. }
-      split.
-      { unfold Rfin. cbn [g_off g_out]. split; [rewrite F1, H2pos, Hoff; reflexivity|].
-        split; [rewrite Hlog; now rewrite app_assoc|exact F3]. }
-      split; [|reflexivity].
-      intro Ht. constructor; cbn [g_off g_out g_after g_sunk g_matched g_pend g_lnum rev]; try assumption.
-      + rewrite F1, H2pos. now rewrite Hoff.
+      split; [rewrite F1; exact H2pos|].
+      split; [rewrite Hlog; now rewrite app_assoc|].
+      split; [exact F3|].
+      intro Ht.
+      constructor; cbn [g_off g_out g_after g_sunk g_matched g_pend g_lnum rev]; try assumption.
       + rewrite Hlog. now rewrite app_assoc.
       + congruence.
       + exact I.
       + rewrite F8. unfold plen. cbn. rewrite Hoff. lia.
       + rewrite F8. lia.
       + exact (Hlnum' Ht).
+  Qed.
+
+  Notation slow := (slow_loop cfg M K true).
+
+  Lemma slow_step fuel c g p l :
+    R c g -> g_stopped g = false -> g_off g = p -> next_line p l ->
+    let g' := g_step cfg (m_is_match M) g l in
+    exists c', Rfin c' g' /\ (terminated ltb l -> R c' g') /\
+      slow (S fuel) c s p = if g_stopped g' then OK false c' else slow fuel c' s (p + length l).
+  Proof.
+    intros HR Hns Hoff Hnl g'.
+    destruct HR as [Rpos [Rabs Rbin Rlog Rafter Rsunk Rmatched Rlaid Rllv Rllc Rln Rlnum]].
+    destruct Hnl as (Hsub & Hb & Hshape).
+    assert (Hnl : next_line p l) by (repeat split; assumption).
+    cbn [slow_loop]. unfold ltb_. rewrite (line_step_next p l Hnl). rewrite Hsub.
+    unfold g', g_step, g_step_s. rewrite Hns.
+    set (matched := m_is_match M (without_terminator (c_lt cfg) l)).
+    set (success := negb (Bool.eqb matched (c_invert cfg))).
+    set (c0 := set_pos c (p + length l)).
+    assert (Hlnum' : terminated ltb l -> S (g_lnum g) = 1 + count_lt ltb (firstn (g_off g + length l) s)).
+    { intro Ht. rewrite Hoff. rewrite (count_lt_next p l Hsub Hb Ht). rewrite Rlnum, Hoff. lia. }
+    destruct success eqn:Es.
+    - (* the line is a match *)
+      destruct (matched_step c0 g p l) as (c2 & Hrun & H2bin & Hc3);
+        [apply R0_set_pos; constructor; assumption|exact Hoff|exact Hns|exact Hnl|].
+      cbn zeta in Hc3. destruct Hc3 as (Hp3 & Hlog3 & Hbin3 & HR3).
+      rewrite Hrun. cbn [andthen].
+      rewrite (sink_matched_K cfg Hbin) by exact H2bin. cbn [andthen].
+      rewrite andb_false_r. cbn [andb].
+      exists (post_matched cfg c2 s p (p + length l)).
+      assert (Hgs : g_step_s cfg g l true =
+                    g_step_s cfg g l true) by reflexivity.
+      unfold g_step_s in HR3, Hlog3 |- *. rewrite Hns in HR3, Hlog3.
+      cbn [g_stopped].
+      split.
+      { unfold Rfin. cbn [g_off g_out] in *. split; [rewrite Hp3; cbn [c0 pos set_pos]; now rewrite Hoff|].
+        split; [exact Hlog3|exact Hbin3]. }
+      split; [|reflexivity].
+      intro Ht. split; [cbn [g_off]; rewrite Hp3; cbn [c0 pos set_pos]; now rewrite Hoff|].
+      exact (HR3 Ht).
     - (* not a match *)
       assert (Hllcp : last_line_counted c0 <= p).
       { cbn [c0 last_line_counted set_pos]. pose proof Rllv. lia. }
@@ -512,8 +556,8 @@ Section Sim.
         { unfold Rfin. cbn [g_off g_out]. split; [rewrite F1; cbn [c0 pos set_pos]; now rewrite Hoff|].
           split; [exact Hlog|exact F3]. }
         split; [|reflexivity].
-        intro Ht. constructor; cbn [g_off g_out g_after g_sunk g_matched g_pend g_lnum rev]; try assumption.
-        * rewrite F1. cbn [c0 pos set_pos]. now rewrite Hoff.
+        intro Ht. split; [cbn [g_off]; rewrite F1; cbn [c0 pos set_pos]; now rewrite Hoff|].
+        constructor; cbn [g_off g_out g_after g_sunk g_matched g_pend g_lnum rev]; try assumption.
         * rewrite F5. change (after_context_left c0) with (after_context_left c). now rewrite Rafter.
         * rewrite F7. exact Rmatched.
         * exact I.
@@ -534,8 +578,8 @@ Section Sim.
         { unfold Rfin. cbn [g_off g_out]. split; [rewrite F1; cbn [c0 pos set_pos]; now rewrite Hoff|].
           split; [exact Hlog|exact F3]. }
           split; [|reflexivity].
-          intro Ht. constructor; cbn [g_off g_out g_after g_sunk g_matched g_pend g_lnum rev]; try assumption.
-          -- rewrite F1. cbn [c0 pos set_pos]. now rewrite Hoff.
+          intro Ht. split; [cbn [g_off]; rewrite F1; cbn [c0 pos set_pos]; now rewrite Hoff|].
+          constructor; cbn [g_off g_out g_after g_sunk g_matched g_pend g_lnum rev]; try assumption.
           -- rewrite F5. change (after_context_left c0) with (after_context_left c). rewrite Rafter.
              destruct (Nat.leb_spec 1 (g_after g)); [discriminate|lia].
           -- rewrite F7. exact Rmatched.
@@ -547,10 +591,10 @@ Section Sim.
           exists c0. cbn [g_stopped]. change (has_matched c0) with (has_matched c). rewrite Rmatched.
           split. { unfold Rfin. cbn [g_off g_out c0 pos log bin_off set_pos]. rewrite Hoff. auto. }
           split; [|reflexivity].
-          intro Ht. constructor; cbn [g_off g_out g_after g_sunk g_matched g_pend g_lnum rev
-                                      c0 pos abs_off bin_off log after_context_left has_sunk has_matched
-                                      last_line_visited last_line_counted set_pos]; try assumption.
-          -- now rewrite Hoff.
+          intro Ht. split; [cbn [g_off c0 pos set_pos]; now rewrite Hoff|].
+          constructor; cbn [g_off g_out g_after g_sunk g_matched g_pend g_lnum rev
+                            c0 pos abs_off bin_off log after_context_left has_sunk has_matched
+                            last_line_visited last_line_counted set_pos]; try assumption.
           -- rewrite Rafter. destruct (Nat.leb_spec 1 (g_after g)); [discriminate|lia].
           -- apply laid_app. split; [exact Rlaid|]. cbn [laid p_off p_bytes p_lnum].
              rewrite Rllv, Hoff. repeat split; auto. rewrite Rlnum, Hoff. reflexivity.
@@ -612,7 +656,7 @@ Section Sim.
     - cbn [lines_at] in Hat. destruct fuel as [|f]; [cbn in Hf; lia|].
       cbn [slow_loop]. unfold ltb_. rewrite line_step_end by lia.
       exists true, c. split; [reflexivity|]. unfold gf. cbn [fold_left].
-      destruct HR. unfold Rfin. repeat split; auto. lia.
+      destruct HR as [Hp0 []]. unfold Rfin. repeat split; auto. lia.
     - destruct fuel as [|f]; [cbn in Hf; lia|].
       destruct Hat as (Hnl & Hterm & Hrest).
       destruct (slow_step f c g p l HR Hns Hoff Hnl) as (c' & Hfin & HR' & Heq).
@@ -639,6 +683,7 @@ Section Sim.
   Lemma R_init :
     R (set_log (core_new cfg) [EBegin]) g_init.
   Proof.
+    split; [reflexivity|].
     constructor; cbn; try reflexivity; try exact I; try lia.
     unfold LN. cbn. destruct (c_line_number cfg); reflexivity.
   Qed.
